@@ -91,8 +91,19 @@ impl Drop for Elem {
     }
 }
 
+impl Elem {
+    #[inline]
+    fn touch(&self) {
+        if tracking() {
+            tok_ev(json!(["u", self.tok, 0]));
+        }
+    }
+}
+
 impl PartialEq for Elem {
     fn eq(&self, other: &Self) -> bool {
+        self.touch();
+        other.touch();
         self.v == other.v
     }
 }
@@ -104,12 +115,15 @@ impl PartialOrd for Elem {
 }
 impl Ord for Elem {
     fn cmp(&self, other: &Self) -> std::cmp::Ordering {
+        self.touch();
+        other.touch();
         self.v.cmp(&other.v)
     }
 }
 /// Hash class = v mod 2 (Obs.tla `Hash`): equal-hash / unequal-value pairs exist.
 impl Hash for Elem {
     fn hash<H: Hasher>(&self, state: &mut H) {
+        self.touch();
         (self.v.rem_euclid(2)).hash(state);
     }
 }
@@ -235,6 +249,9 @@ pub fn with_watchdog(tr: Arc<Tracer>, secs: u64, f: impl FnOnce() + Send + 'stat
 }
 
 pub fn silence_panics() {
+    if std::env::var("HARNESS_SHOW_PANICS").is_ok() {
+        return;
+    }
     panic::set_hook(Box::new(|_| {}));
 }
 
